@@ -36,7 +36,7 @@ def V(site, clause, msg, triggers=(), **detail):
 
 def cases(tier, seed):
     out = []
-    dss = ['S2u', 'S3u', 'S5'] if tier == 'quick' else ['S2', 'S2u', 'S3', 'S3u', 'S5', 'S8', 'R']
+    dss = ['S2u', 'S3u', 'S5'] if tier == 'quick' else data.THOROUGH
     for dsn in dss:
         ds = data.dataset('R', seed) if dsn == 'R' else data.dataset(dsn)
         d = ds.d
@@ -115,6 +115,18 @@ def run_case(spec):
             except Exception as e:
                 return dict(evals=1, sigs=[], viol=[V(site, 'raises', 'fit raised %s: %s' % (type(e).__name__, str(e)[:120]), tr)])
         k = est.components_.shape[0]
+        # the optimiser starts from the documented initialisation (options whose value is known in closed form)
+        ini = over.get('init')
+        x0doc = None
+        if isinstance(ini, np.ndarray):
+            x0doc = ini
+        elif ini == 'identity':
+            x0doc = np.eye(k, d)
+        elif ini == 'random':
+            x0doc = np.random.RandomState(over.get('random_state')).randn(k, d)
+        if x0doc is not None and not np.array_equal(rec['x0'].reshape(k, d), x0doc):
+            viol.append(V(site, 'initial_point', 'the optimiser does not start from the documented %s initialisation'
+                          % (ini if isinstance(ini, str) else 'array'), tr))
         sign = -1.0 if name == 'NCA' else 1.0           # NCA hands -f to the minimiser
         reff = ref.nca if name == 'NCA' else ref.mlkr
         L0 = rec['x0'].reshape(k, d)
@@ -191,64 +203,75 @@ def run_case(spec):
         recs.append((L_in, np.array(G, copy=True), float(obj), np.array(target_neighbors, copy=True), np.array(label_inds, copy=True)))
         return G, obj, act
     est = zoo.make('LMNN', ds, **dict(over, max_iter=25, learn_rate=1e-4, verbose=True))
-    buf = io.StringIO()
-    with Patched(ml.lmnn.LMNN, '_loss_grad', spy), contextlib.redirect_stdout(buf):
-        try:
-            est.fit(X.copy(), y.copy())
-        except Exception as e:
-            return dict(evals=1, sigs=[], viol=[V(site, 'raises', 'fit raised %s: %s' % (type(e).__name__, str(e)[:120]), tr)])
-    k = est.components_.shape[0]
-    tn = recs[0][3]
-    valid = ref.lmnn_targets(X, y, kk)
-    for i in range(len(X)):
-        s = set(tn[i].tolist())
-        if len(s) != kk or not (valid[i][0] <= s <= valid[i][1]):
-            viol.append(V(site, 'target_neighbours', 'target neighbours of point %d are not its %d nearest same-class Euclidean neighbours' % (i, kk), tr))
-            break
-    targets = [tn[i].tolist() for i in range(len(X))]
-    L0 = recs[0][0]
-    pts = [('visited', L, G, o) for L, G, o, _, _ in recs]
-    # probe set through the implementation's own evaluation function
-    dfG = ml.lmnn._sum_outer_products(X, tn.flatten(), np.repeat(np.arange(len(X)), kk))
-    for pn, Lp in probes(L0, d):
-        G, o, _ = orig(est, X, Lp.copy(), dfG, kk, reg, tn, recs[0][4])
-        pts.append((pn, Lp, np.array(G), float(o)))
-    for pn, Lp, G, o in pts:
-        fr, gr, margin, gs = ref.lmnn(Lp, X, y, targets, reg)
-        evals += 1
-        states += 1
-        if margin < 1e-9:
-            amb += 1
+    y_first = y
+    y_other = np.roll(y, 3)            # the same points with OTHER labels, fitted on the SAME object afterwards
+    for fit_no, y in enumerate((y_first, y_other)):
+        tr = [lab] + (['refit_other_labels'] if fit_no else [])
+        del recs[:]
+        if np.bincount(np.unique(y, return_inverse=True)[1]).min() <= kk:
             continue
-        rv = abs(o - fr) / max(abs(fr), 1e-12)
-        rg = (np.abs(G - gr) / (gs + 1e-300)).max() if np.isfinite(G).all() else np.inf
-        head['value'] = max(head['value'], rv / 1e-9)
-        head['gradient'] = max(head['gradient'], rg / 1e-7)
-        if not np.isfinite(o) or rv > 1e-9:
-            viol.append(V(site, 'objective_value', 'at a %s transformation the objective driving the optimiser is %.12g, the documented pull + push '
-                          'objective is %.12g' % (pn, o, fr), tr + [pn, 'k=%d' % kk]))
-        if not np.isfinite(G).all() or rg > 1e-7:
-            viol.append(V(site, 'gradient', 'at a %s transformation the gradient differs from the derivative of the documented objective by %.3g '
-                          'relative' % (pn, rg), tr + [pn, 'k=%d' % kk]))
-    # accepted iterates (verbose lines: it objective delta active learn_rate): non-increasing, last == objective of components_
-    objs = []
-    for line in buf.getvalue().splitlines():
-        parts = line.split()
-        if len(parts) == 5 and parts[0].isdigit():
+        buf = io.StringIO()
+        with Patched(ml.lmnn.LMNN, '_loss_grad', spy), contextlib.redirect_stdout(buf):
             try:
-                objs.append(float(parts[1]))
-            except ValueError:
-                pass
-    trans += len(objs)
-    f_init = ref.lmnn(L0, X, y, targets, reg)[0]
-    seq = [f_init] + objs
-    if any(b > a + 1e-9 * (1 + abs(a)) for a, b in zip(seq, seq[1:])):
-        viol.append(V(site, 'accepted_iterates_increase', 'the objective of the accepted iterates is not non-increasing: %s' % np.round(seq[:8], 6).tolist(), tr))
-    f_end, _, m_end, _ = ref.lmnn(est.components_, X, y, targets, reg)
-    if objs and m_end > 1e-9 and abs(f_end - objs[-1]) > 1e-8 * (1 + abs(f_end)):
-        viol.append(V(site, 'returned_not_last_accepted', 'documented objective at components_ is %.10g, the last accepted iterate had %.10g' % (f_end, objs[-1]), tr))
-    if f_end > f_init + 1e-9 * (1 + abs(f_init)):
-        viol.append(V(site, 'worse_than_init', 'documented objective at components_ (%.10g) is worse than at the initial transformation (%.10g)' % (f_end, f_init), tr))
+                est.fit(X.copy(), y.copy())
+            except Exception as e:
+                return dict(evals=1, sigs=[], viol=[V(site, 'raises', 'fit raised %s: %s' % (type(e).__name__, str(e)[:120]), tr)])
+        k = est.components_.shape[0]
+        tn = recs[0][3]
+        valid = ref.lmnn_targets(X, y, kk)
+        for i in range(len(X)):
+            s = set(tn[i].tolist())
+            if len(s) != kk or not (valid[i][0] <= s <= valid[i][1]):
+                viol.append(V(site, 'target_neighbours', 'target neighbours of point %d are not its %d nearest same-class Euclidean neighbours' % (i, kk), tr))
+                break
+        targets = [tn[i].tolist() for i in range(len(X))]
+        L0 = recs[0][0]
+        if fit_no == 0:
+            L0_first, n_first = L0, len(recs)
+        pts = [('visited', L, G, o) for L, G, o, _, _ in recs]
+        # probe set through the implementation's own evaluation function
+        dfG = ml.lmnn._sum_outer_products(X, tn.flatten(), np.repeat(np.arange(len(X)), kk))
+        for pn, Lp in probes(L0, d):
+            G, o, _ = orig(est, X, Lp.copy(), dfG, kk, reg, tn, recs[0][4])
+            pts.append((pn, Lp, np.array(G), float(o)))
+        for pn, Lp, G, o in pts:
+            fr, gr, margin, gs = ref.lmnn(Lp, X, y, targets, reg)
+            evals += 1
+            states += 1
+            if margin < 1e-9:
+                amb += 1
+                continue
+            rv = abs(o - fr) / max(abs(fr), 1e-12)
+            rg = (np.abs(G - gr) / (gs + 1e-300)).max() if np.isfinite(G).all() else np.inf
+            head['value'] = max(head['value'], rv / 1e-9)
+            head['gradient'] = max(head['gradient'], rg / 1e-7)
+            if not np.isfinite(o) or rv > 1e-9:
+                viol.append(V(site, 'objective_value', 'at a %s transformation the objective driving the optimiser is %.12g, the documented pull + push '
+                              'objective is %.12g' % (pn, o, fr), tr + [pn, 'k=%d' % kk]))
+            if not np.isfinite(G).all() or rg > 1e-7:
+                viol.append(V(site, 'gradient', 'at a %s transformation the gradient differs from the derivative of the documented objective by %.3g '
+                              'relative' % (pn, rg), tr + [pn, 'k=%d' % kk]))
+        # accepted iterates (verbose lines: it objective delta active learn_rate): non-increasing, last == objective of components_
+        objs = []
+        for line in buf.getvalue().splitlines():
+            parts = line.split()
+            if len(parts) == 5 and parts[0].isdigit():
+                try:
+                    objs.append(float(parts[1]))
+                except ValueError:
+                    pass
+        trans += len(objs)
+        f_init = ref.lmnn(L0, X, y, targets, reg)[0]
+        seq = [f_init] + objs
+        if any(b > a + 1e-9 * (1 + abs(a)) for a, b in zip(seq, seq[1:])):
+            viol.append(V(site, 'accepted_iterates_increase', 'the objective of the accepted iterates is not non-increasing: %s' % np.round(seq[:8], 6).tolist(), tr))
+        f_end, _, m_end, _ = ref.lmnn(est.components_, X, y, targets, reg)
+        if objs and m_end > 1e-9 and abs(f_end - objs[-1]) > 1e-8 * (1 + abs(f_end)):
+            viol.append(V(site, 'returned_not_last_accepted', 'documented objective at components_ is %.10g, the last accepted iterate had %.10g' % (f_end, objs[-1]), tr))
+        if f_end > f_init + 1e-9 * (1 + abs(f_init)):
+            viol.append(V(site, 'worse_than_init', 'documented objective at components_ (%.10g) is worse than at the initial transformation (%.10g)' % (f_end, f_init), tr))
+    y, L0 = y_first, L0_first
+    tr = [lab]
     # zero iterations
     for mi in (0, 1, 2):
         e0 = zoo.make('LMNN', ds, **dict(over, max_iter=mi))
@@ -256,7 +279,7 @@ def run_case(spec):
         evals += 1
         if not np.array_equal(e0.components_, L0):
             viol.append(V(site, 'zero_iterations', 'with max_iter=%d (no gradient step) components_ differs from the initial transformation' % mi, tr))
-    sigs.add(('LMNN', dsn, lab, kk, reg, len(recs)))
+    sigs.add(('LMNN', dsn, lab, kk, reg, n_first))
     return dict(evals=evals, sigs=sigs, viol=viol, states=states, transitions=trans, headroom=head, ambiguous=amb,
                 sample={'learner': 'LMNN', 'dataset': dsn, 'options': lab, 'n_neighbors': kk, 'regularization': reg,
                         'loss_grad_evaluations': len(recs), 'accepted_iterates': len(objs)})
